@@ -123,7 +123,35 @@ def witness_zero():
     return Indexed(ct, MultiIndex((FixedIndex(1), FixedIndex(0))))
 
 
+def witness_ct_shortcut():
+    f, g = uflgen.coef((2, 2)), uflgen.coef((2, 2))
+    p, q, j = Index(), Index(), Index()
+    lt = ListTensor(Indexed(f, MultiIndex((p, j))), Indexed(g, MultiIndex((p, j))))
+    inner = ComponentTensor(Indexed(lt, MultiIndex((q,))), MultiIndex((p, q)))
+    return ComponentTensor(Indexed(inner, MultiIndex((j, j))), MultiIndex((j,)))
+
+
+def ct_shortcut_class(e):
+    """class predicate of componenttensor-shortcut-dependent (decidable on the input, evaluated
+    with the implementation on sub-expressions): some ComponentTensor(B, ix) of e has a body that
+    the pass rewrites to Indexed(A, ix) with A depending on an index of ix -- the constructor
+    shortcut as_tensor(A[ix], ix) -> A then drops the binding"""
+    from ufl.corealg.traversal import unique_pre_traversal
+    for x in unique_pre_traversal(e):
+        if isinstance(x, ComponentTensor):
+            body, ix = x.ufl_operands
+            try:
+                r = remove_component_tensors(body)
+            except Exception:   # noqa: BLE001
+                continue
+            if isinstance(r, Indexed) and r.ufl_operands[1] == ix and \
+                    {i.count() for i in ix} & set(r.ufl_operands[0].ufl_free_indices):
+                return True
+    return False
+
+
 KNOWN = {
+    "componenttensor-shortcut-dependent": (witness_ct_shortcut, remove_component_tensors),
     "indexreplacer-capture": (witness_capture, remove_component_tensors),
     "expand-variable-cache": (witness_variable, expand_indices),
 }
@@ -140,7 +168,10 @@ def replay_known(run, known):
         e = mk()
         try:
             o = fn(e)
-        except Exception:   # noqa: BLE001
+        except Exception as ex:   # noqa: BLE001
+            if kid == "componenttensor-shortcut-dependent":
+                live.add(kid)
+                run.known(f"id={kid} {fn.__name__}({e}) raises {type(ex).__name__}: {ex}")
             continue
         w = C10_lib.mismatch(o, e, trials=4, seed=1)
         if w:
@@ -390,6 +421,12 @@ def enumerated_cases():
         out.append((f"cp_ct_{tag}", S(S(Product(Product(X(outer, j, p_), X(a2, j)), X(b2, p_)), p_), j), True))
         out.append((f"cp_ct_{tag}_fixed", S(Product(X(outer, j, 1), X(a2, j)), j), True))
         out.append((f"cp_ct_{tag}_fresh", S(S(Product(Product(X(outer, q_, p_), X(a2, q_)), X(b2, p_)), p_), q_), True))
+    # diagonal access of a component tensor whose body also depends on the enclosing binder
+    out.append(("dg_ct", witness_ct_shortcut(), False))
+    dj, dp, dq = Index(), Index(), Index()
+    dbody = Product(X(M22, dp, dj), X(N22, dq, dj))
+    out.append(("dg_ct_prod", ComponentTensor(X(ComponentTensor(dbody, MultiIndex((dp, dq))), dj, dj), MultiIndex((dj,))), False))
+    out.append(("dg_ct_sum", S(X(ComponentTensor(dbody, MultiIndex((dp, dq))), dj, dj), dj), True))
     # a Zero all of whose free indices are replaced by fixed indices (regression of the repaired
     # IndexReplacer.zero), and one of whose indices only some are
     out.append(("zf_allfixed", witness_zero(), True))
@@ -462,7 +499,10 @@ def build_cases(run, live):
         except Exception as ex:   # noqa: BLE001
             o, err = None, ex
         note = dict(base, **{"pass": "remove_component_tensors"})
-        if err is not None:
+        if (err is not None or C10_lib.mismatch(o, e, trials=3, seed=n)) \
+                and "componenttensor-shortcut-dependent" in live and ct_shortcut_class(e):
+            known_hits.setdefault("componenttensor-shortcut-dependent", []).append(nm)
+        elif err is not None:
             if not is_h and "indexreplacer-capture" in live:
                 cases.append(C10_lib.PassCase(nm, None, e, extra=extra_rct(False, "capture"), note=note))
                 known_hits.setdefault("indexreplacer-capture", []).append(nm)
